@@ -15,6 +15,7 @@ import (
 	"github.com/zerx-lab/wordZero/pkg/markdown"
 
 	"wzverif/internal/kit"
+	"wzverif/internal/opc"
 	"wzverif/internal/xmlwf"
 )
 
@@ -47,6 +48,7 @@ type outcome struct {
 	doc   *document.Document // in-memory entry points only
 	saved []byte             // the package: ToBytes of doc, or the file a file entry point wrote
 	act   []ablk             // the body as judged: observe(doc), or the independent reading of the written package
+	pkg   *opc.Package       // the parts of saved (nil if it cannot be read)
 	ok    bool
 }
 
@@ -157,7 +159,7 @@ func convert(res *kit.Result, c Case, src []byte) (out outcome) {
 	}
 	out.saved = saved
 	tPkg := time.Now()
-	checkPackage(res, saved, c.Entry, sampleConstant(src))
+	out.pkg = checkPackage(res, saved, c.Entry, sampleConstant(src))
 	phase("checkPackage", tPkg)
 	if !fileEntry(c.Entry) {
 		out.act = observe(doc)
@@ -460,7 +462,41 @@ func runAST(c Case) *kit.Result {
 	} else {
 		res.Label("judged:some-block-in-finding-class")
 	}
-	judge(res, exp, o.act, c.Opts.GFM && !c.Opts.Tables)
+	tablesOff := c.Opts.GFM && !c.Opts.Tables
+	// M8 (lists) is judged on the saved package, read by the independent reader. The numbering part is read only
+	// when the package has list paragraphs or the input has list items.
+	pk := o.act
+	if !fileEntry(c.Entry) {
+		var err error
+		if pk, err = readBody(o.saved, false); err != nil {
+			res.Fail("C19.M0", "the body of the saved package cannot be read: %v", err)
+			pk = nil
+		}
+	}
+	nums := &numbering{err: "not read"}
+	if needsNumbering(exp, pk) {
+		nums = readNumbering(o.pkg)
+		res.Label("lists:numbering-part-read")
+	}
+	if fileEntry(c.Entry) {
+		judge(res, exp, o.act, tablesOff, nums)
+	} else {
+		judge(res, exp, o.act, tablesOff, nil)
+		if pk != nil {
+			// second walk, over the package reading, for M8 only: everything else was judged on the in-memory model
+			tmp := &kit.Result{}
+			judge(tmp, exp, pk, tablesOff, nums)
+			for _, f := range tmp.Failures {
+				if f.Clause == "C19.M8" {
+					res.Failures = append(res.Failures, f)
+				}
+			}
+			for i := 0; i < tmp.Clauses["C19.M8"]; i++ {
+				res.Eval("C19.M8")
+			}
+		}
+	}
+	listLabels(res, exp)
 
 	delete(bk, "task")
 	nb := len(bk)
@@ -478,6 +514,63 @@ func runAST(c Case) *kit.Result {
 	sort.Strings(ks)
 	res.Shape = "ast|" + optLabel(c.Opts) + "|w" + itoa(len(c.Warm)) + "|" + sig(c.Doc) + "|" + strings.Join(ks, ",")
 	return res
+}
+
+// needsNumbering: the input has a list item or the document a list paragraph
+func needsNumbering(exp []xblk, pk []ablk) bool {
+	for _, e := range exp {
+		if e.item {
+			return true
+		}
+	}
+	for _, a := range pk {
+		if a.num != nil {
+			return true
+		}
+	}
+	return false
+}
+
+// listLabels: the classes of list items the case holds (as read from the input)
+func listLabels(res *kit.Result, exp []xblk) {
+	seen := map[string]bool{}
+	lists := 0
+	for i, e := range exp {
+		if !e.item {
+			continue
+		}
+		l := "li:bullet"
+		switch {
+		case e.task:
+			l = "li:task"
+		case e.ord:
+			l = "li:ordered"
+		}
+		if !e.task && !e.flat {
+			seen["li:plain-item-outside-finding-class"] = true
+		}
+		if e.depth > 0 {
+			seen["li:nested"] = true
+		}
+		seen[l] = true
+		if i == 0 || !exp[i-1].item || exp[i-1].top != e.top {
+			lists++
+		}
+	}
+	if seen["li:bullet"] && seen["li:ordered"] {
+		seen["li:bullet+ordered-in-one-document"] = true
+	}
+	if lists >= 2 {
+		seen["li:two-or-more-lists"] = true
+	}
+	var ls []string
+	for l := range seen {
+		ls = append(ls, l)
+	}
+	sort.Strings(ls)
+	for _, l := range ls {
+		res.Label(l)
+	}
 }
 
 // sizeLabels: the classes of size, count and spelling that the common case does not reach
@@ -636,7 +729,7 @@ func TestC19(t *testing.T) {
 	}
 	kit.Main(t, kit.Spec[Case]{
 		ID: "C19", Level: "exploration",
-		Rule: "about 35% totality cases (random bytes, random UTF-8, Markdown token soup, one token repeated up to 1500x (thorough 6000x), huge pipe tables, unbalanced $, LaTeX token soup, formula documents (1-5 formulas drawn from a LaTeX command grammar - roots with drawn index, fractions, scripts, big operators with bounds, delimiters, wrappers with optional arguments, environments, unfinished constructs; every argument/index/bound drawn from both letter cases, digits, commands, nested expressions - placed inline, as display, in items, quotes, cells, headings, spans), slices of a document using every construct re-assembled with soup tokens; LaTeXToOMMLString on the same bytes and on every formula body) and 65% fidelity cases (Markdown AST of 1-7 (thorough 1-12) top-level blocks serialised canonically, words from a safe alphabet plus, for about one word in 40, a character-reference look-alike: entity names in the spellings HTML5 has and in spellings it does not have (other letter case, a letter more or less, no semicolon), unknown names, numeric references at and beyond their digit limits and code-point range - the reading resolves exactly what CommonMark 2.5 calls a reference, everything else is literal text; sizes are small in the common case and, with a small probability each, at or beyond 9-12 and 32/64/65/100 (list items, table columns and rows, code lines, top-level blocks, headings of one document) and 255 B-128 KiB for one code line or one run of text (128 KiB and 65 blocks in the thorough tier only; lengths just below and above 256, 1 Ki, 4 Ki, ..., 64 Ki); ATX headings with and without closing hashes; the text written with LF or CRLF line endings, with or without the terminator of the last line), each under a drawn combination of GFM/tables/task lists/math/footnotes/TOC/TOC level and through a drawn entry point: ConvertBytes, ConvertString, ConvertFile, BatchConvert (file entry points are judged on the package they write, read by an independent reader of the main document part, and compared with the package of the document ConvertBytes returns for the same bytes); in 40% of all cases the Converter has first converted 1-2 other documents (link reference, footnote, heading-id, math, table definitions; in a batch: the files before the judged one; expected result unchanged); a fidelity case is judged only if the AST reading equals the reading of goldmark's HTML (else discarded and counted); 3/4 of the fidelity cases are built only from forms outside every open finding's input class (label judged:unmasked), 1/4 carry one such class. A case that does not return within 15 s (thorough 45 s) ends the process (watchdog) and is replayed by the driver. Non-trivial: fidelity = judged case with >=3 block kinds and >=2 inline kinds; totality = conversion produced >=1 body element. Distinct = option set + block/inline structure signature (fidelity) or class + first tokens + size bucket (totality)",
+		Rule: "about 35% totality cases (random bytes, random UTF-8, Markdown token soup, one token repeated up to 1500x (thorough 6000x), huge pipe tables, unbalanced $, LaTeX token soup, formula documents (1-5 formulas drawn from a LaTeX command grammar - roots with drawn index, fractions, scripts, big operators with bounds, delimiters, wrappers with optional arguments, environments, unfinished constructs; every argument/index/bound drawn from both letter cases, digits, commands, nested expressions - placed inline, as display, in items, quotes, cells, headings, spans), slices of a document using every construct re-assembled with soup tokens; LaTeXToOMMLString on the same bytes and on every formula body) and 65% fidelity cases (Markdown AST of 1-7 (thorough 1-12) top-level blocks serialised canonically, words from a safe alphabet plus, for about one word in 40, a character-reference look-alike: entity names in the spellings HTML5 has and in spellings it does not have (other letter case, a letter more or less, no semicolon), unknown names, numeric references at and beyond their digit limits and code-point range - the reading resolves exactly what CommonMark 2.5 calls a reference, everything else is literal text; sizes are small in the common case and, with a small probability each, at or beyond 9-12 and 32/64/65/100 (list items, table columns and rows, code lines, top-level blocks, headings of one document) and 255 B-128 KiB for one code line or one run of text (128 KiB and 65 blocks in the thorough tier only; lengths just below and above 256, 1 Ki, 4 Ki, ..., 64 Ki); ATX headings with and without closing hashes; the text written with LF or CRLF line endings, with or without the terminator of the last line), each under a drawn combination of GFM/tables/task lists/math/footnotes/TOC/TOC level and through a drawn entry point: ConvertBytes, ConvertString, ConvertFile, BatchConvert (file entry points are judged on the package they write, read by an independent reader of the main document part, and compared with the package of the document ConvertBytes returns for the same bytes); in 40% of all cases the Converter has first converted 1-2 other documents (link reference, footnote, heading-id, math, table definitions; in a batch: the files before the judged one; expected result unchanged); a fidelity case is judged only if the AST reading equals the reading of goldmark's HTML - block kinds, text, flags, and for list items the list kind (bullet/ordered), nesting depth and task box - (else discarded and counted); lists are judged on the saved package for every entry point (M8: numbering part resolved by an independent reader); 3/4 of the fidelity cases are built only from forms outside every open finding's input class (label judged:unmasked), 1/4 carry one such class. A case that does not return within 15 s (thorough 45 s) ends the process (watchdog) and is replayed by the driver. Non-trivial: fidelity = judged case with >=3 block kinds and >=2 inline kinds; totality = conversion produced >=1 body element. Distinct = option set + block/inline structure signature (fidelity) or class + first tokens + size bucket (totality)",
 		Gen:  genCase, Run: run, Findings: findings, Fixed: fixedCases,
 		// totality includes termination: a case that has not returned after 15 s (thorough tier, whose inputs are
 		// up to 50 times larger: 45 s; the slowest case of the quick search takes about half a second on a machine
@@ -644,7 +737,8 @@ func TestC19(t *testing.T) {
 		// case with three times the limit and reports a VIOLATION if it dies again
 		CaseLimit: time.Duration(kit.Scale(15, 45)) * time.Second,
 		Assumptions: []string{
-			"the visible text of a document is the text of the runs of its body paragraphs and table cells, in body order; list bullets, numbers and check-box glyphs at the start of a list paragraph and the blank standing for an empty code line are not text",
+			"the visible text of a document is the text of the runs of its body paragraphs and table cells, in body order; the blank standing for an empty code line is not text; a list item that is a list paragraph (w:numPr) gets its marker from the numbering definition, so every character of the paragraph is text of the item (only the check-box glyph at the start of a task item is set aside); in a list item that is no list paragraph a leading bullet, number or check-box glyph is not text",
+			"M8: 'lists are kept' means, for a consumer of the saved package, that every plain (non-task) list item is a paragraph with w:numPr whose w:numId resolves, through the numbering part the main part's numbering relationship names, to a w:num, its w:abstractNum (or a w:lvlOverride) and the w:lvl of the paragraph's w:ilvl; that this level's w:numFmt is bullet for an item of a bullet list and decimal for an item of an ordered list; that w:ilvl is the number of lists the item is nested in minus one; and that no block outside any list is a list paragraph. Start numbers, restarts, marker glyph, indentation and whether two lists share one numbering instance are not judged; task items are not required to be list paragraphs",
 			"heading style of level n is the style id Heading<n>; code formatting is any monospace font on the run; a thematic break carries no text and is not judged beyond totality",
 			"bold/italic coming from the heading style or from a table header row is not attributed to inline emphasis",
 			"formulas are judged for text only (plain alphanumeric content), not for formatting; the state of a task-list check box is not visible text",
@@ -660,6 +754,7 @@ func TestC19(t *testing.T) {
 			"bytes:formula": 0.03, "latex:root-index": 0.015, "latex:frac": 0.02, "latex:script-braced": 0.02, "agreement:judged": 0.15, "src:leading-indent+file-entry": 0.01,
 			"converter:reused": 0.25, "converter:fresh": 0.3, "inl:br": 0.15, "code:indented-fence+tab": 0.03,
 			"text:reference-lookalike-literal": 0.02, "text:character-reference": 0.02, "size:code-line>=64KiB": 0.002, "size:text>=64KiB": 0.0005, "eol:crlf": 0.02, "eol:last-line-unterminated": 0.02,
+			"li:bullet": 0.1, "li:ordered": 0.05, "li:task": 0.04, "li:plain-item-outside-finding-class": 0.12, "li:bullet+ordered-in-one-document": 0.01, "li:two-or-more-lists": 0.03,
 			"size:items>=9": 0.005, "size:columns>=9": 0.005, "size:rows>=9": 0.005, "size:code-lines>=9": 0.005, "size:headings>=9": 0.005, "h:closing-sequence": 0.02},
 	})
 }
